@@ -1,10 +1,13 @@
 (* C03 — the compiled reader is observationally equivalent to the interpreted reader. *)
-From VF Require Import Model.Reader Model.Writer Proofs.ArrayProps Proofs.BlockProps Gen.GeneratedOk.
+From Coq Require Import Lia.
+From VF Require Import Model.Reader Model.Writer Model.Compiler Proofs.ArrayProps Proofs.BlockProps Proofs.ShiftProps Proofs.CompilerProps Gen.GeneratedOk.
 Open Scope string_scope. Open Scope list_scope. Open Scope Z_scope.
 
-(* The source generator of compiler.py is NOT modelled (DESIGN.md 10.1): both readers are compared, on every run, with Model.Reader — the
-   reference the reader theorems (Props/C07, C08, C09) are proved about.  What is proved here is the soundness of the strategy the
-   generated code uses: a run of fixed-size scalar members is read with one stream read and one struct.unpack of the concatenated
+(* The source generator of compiler.py is modelled in Model/Compiler.v: a PLAN (seek / align / reset / sub-reader / bit-field / block instructions)
+   produced by a transcription of _generate_fields, _generate_struct_info, _optimize_struct_fmt and _generate_packed, and the meaning of a plan
+   (run_instrs).  On every run the plan of the model is compared with the instructions parsed out of the source text the real generator emits,
+   and read_compiled with the real compiled reader (vf/props/C03.py).  The theorems at the end of this file relate the plan to the interpreted
+   structure loop.  First, the soundness of the strategy the generated code uses: a run of fixed-size scalar members is read with one stream read and one struct.unpack of the concatenated
    format, and that gives exactly the values, the end position and the error of reading the members one by one, as the interpreted
    structure loop does — for every run of members, every stream and every position. *)
 Theorem block_unpack_is_fieldwise : forall e ps s pos, Forall (fun p => fixed_scalar p <> None) ps -> 0 <= pos ->
@@ -28,6 +31,35 @@ Theorem array_unpack_is_elementwise : forall c p sz, fixed_scalar p = Some sz ->
   packed_read_n c p n s pos = seq_n (fun s pos _ => prim_read_at (c_endian c) p s pos) (Z.to_nat n) s pos ctx.
 Proof. exact bulk_is_sequential. Qed.
 
+(* ---- the generator itself ---- *)
+(* _optimize_struct_fmt only respells the format: the same characters in the same order *)
+Theorem format_optimisation_keeps_the_format : forall info, Forall (fun x : Z * fc => 0 <= fst x) info -> expand (optimize_fmt info) = expand info.
+Proof. exact expand_optimize. Qed.
+(* a generated block over scalar members of ANY kind (packed and byte-sliced integers, floats, char, wchar, enums, pointers): one stream.read of the
+   block size, one struct.unpack of the optimised format, members taken from the tuple by index or sliced out of the buffer and parsed -
+   is reading the members one after the other from the stream: same values, recorded sizes, expression context and end position, and it
+   fails iff that fails (EOFError for a short block where the member-wise reader fails at the first member that does not fit) *)
+Theorem generated_block_reads_memberwise : forall c fuel B i, Forall (fun f => bprim c (f_ty f) <> None) B ->
+  contig c (match B with f :: _ => f_off f | [] => None end) B -> gen_block c false B = Ok i -> bsize c B <= 9223372036854775807 ->
+  forall s o al st, 0 <= p_pos st ->
+    req (run_instr c (fun f => read_ty c fuel (f_ty f)) s o al i st) (do r <- seq_block c fuel B s (p_pos st) st; Ok (set_pos (fst r) (snd r))).
+Proof. exact block_sound. Qed.
+(* THE PROPERTY for packed structures as the parser makes them (no set offsets, no bit fields) whose members are scalars of any kind or have a
+   reader of their own (nested structures and unions, arrays of them, multi-dimensional and dynamically sized arrays - `cls'`): whenever the
+   generator produces a plan, running the generated statements returns exactly what the interpreted reader returns - the same object
+   (values in declaration order, recorded sizes) and the same end position - or both raise.  Block merging, the seeks after sub-readers
+   (position_known), the tracked offset and the fall back to sequential reading after a dynamically sized member are all inside. *)
+Theorem compiled_reader_is_interpreted_reader : forall c fuel nm fs p,
+  Forall (fun f => f_off f = None /\ cls' c fuel f) fs -> NoDup (map f_name fs) -> bsize c fs <= 9223372036854775807 ->
+  compile_plan c false fs = Ok p ->
+  forall s pos ctx, 0 <= pos -> req (read_compiled c fuel false fs s pos) (read_ty c fuel (TStruct nm fs false) s pos ctx).
+Proof. exact compiled_is_interpreted. Qed.
+Theorem sub_readers_of_the_position_class_qualify : forall c fuel f, shift_ok [] c (f_ty f) = true -> (forall n, ty_size c (f_ty f) = Some n -> 0 <= n) -> sub_ok c fuel f.
+Proof. exact sub_ok_of_shift. Qed.
+
+Print Assumptions format_optimisation_keeps_the_format.
+Print Assumptions generated_block_reads_memberwise.
+Print Assumptions compiled_reader_is_interpreted_reader.
 Print Assumptions block_unpack_is_fieldwise.
 Print Assumptions any_grouping_into_blocks_is_fieldwise.
 Print Assumptions fieldwise_is_the_interpreted_loop.
@@ -36,3 +68,35 @@ Example ex_block : block_read "<" [PInt 2 false true; PInt 1 true true; PFloat 4
   = Ok ([VInt 513; VInt (-1); VFloat 1065353216], 7)
   /\ block_read "<" [PInt 2 false true; PInt 1 true true; PFloat 4] [1; 2; 255; 0; 0; 128] 0 = Err EEof.
 Proof. vm_compute. split; reflexivity. Qed.
+
+(* non-vacuity of compiled_reader_is_interpreted_reader:
+   struct { uint8 a; uint16 b; N n; int24 c; char d; uint8 k; uint8 arr[k]; uint32 g; wchar w; }  with  struct N { uint8 x; uint32 y; } *)
+Definition exc_cfg := mkCfg "<" (PInt 8 false true) 8 [] [].
+Definition exc_u8 := TPrim (PInt 1 false true) 1.
+Definition exc_N := TStruct "N" [Fld "x" false exc_u8 None None; Fld "y" false (TPrim (PInt 4 false true) 4) None None] false.
+Definition exc_fs := [Fld "a" false exc_u8 None None; Fld "b" false (TPrim (PInt 2 false true) 2) None None; Fld "n" false exc_N None None;
+                      Fld "c" false (TPrim (PInt 3 true false) 4) None None; Fld "d" false (TPrim PChar 1) None None; Fld "k" false exc_u8 None None;
+                      Fld "arr" false (TArr exc_u8 (LExpr ["k"] false)) None None; Fld "g" false (TPrim (PInt 4 false true) 4) None None;
+                      Fld "w" false (TPrim PWchar 2) None None].
+Example exc_class : Forall (fun f => f_off f = None /\ cls' exc_cfg 50 f) exc_fs /\ NoDup (map f_name exc_fs) /\ bsize exc_cfg exc_fs <= 9223372036854775807
+  /\ exists p, compile_plan exc_cfg false exc_fs = Ok p.
+Proof.
+  split; [|split; [|split]].
+  - repeat (apply Forall_cons; [split; [reflexivity|]; split; [reflexivity|];
+        first [ left; vm_compute; discriminate
+              | right; split; [reflexivity|]; apply sub_ok_of_shift; [vm_compute; reflexivity|intros n H; vm_compute in H; try discriminate; injection H as <-; lia] ]|]).
+    apply Forall_nil.
+  - cbn. repeat constructor; cbn; intuition discriminate.
+  - vm_compute. discriminate.
+  - eexists. vm_compute. reflexivity.
+Qed.
+Example exc_plan : (do p <- compile_plan exc_cfg false exc_fs; Ok (skel p)) =
+  Ok [SBlock 3 [(1, "B"); (1, "H")] true [("a", GData 0, 1); ("b", GData 1, 2)]; SSub "n"; SSeek 8;
+      SBlock 5 [(4, "x"); (1, "B")] true [("c", GBuf 0 3, 3); ("d", GBuf 3 4, 1); ("k", GData 0, 1)]; SSub "arr";
+      SBlock 6 [(1, "I"); (2, "x")] true [("g", GData 0, 4); ("w", GBuf 4 6, 2)]].
+Proof. vm_compute. reflexivity. Qed.
+Example exc_run : let s := [1; 2; 3; 4; 5; 6; 7; 8; 9; 10; 11; 65; 2; 13; 14; 15; 16; 17; 18; 66; 0; 99] in
+  read_compiled exc_cfg 50 false exc_fs s 0 = read_ty exc_cfg 50 (TStruct "m" exc_fs false) s 0 [] /\
+  (exists v, read_compiled exc_cfg 50 false exc_fs s 0 = Ok (v, 21)) /\
+  (exists er, read_compiled exc_cfg 50 false exc_fs (firstn 20 s) 0 = Err er) /\ (exists er, read_ty exc_cfg 50 (TStruct "m" exc_fs false) (firstn 20 s) 0 [] = Err er).
+Proof. cbv zeta. split; [vm_compute; reflexivity|]. split; [eexists; vm_compute; reflexivity|]. split; eexists; vm_compute; reflexivity. Qed.
